@@ -799,6 +799,13 @@ def gen_inputs(rng: random.Random, world: dict, p=0.5):
     """A random subset of (variable, period) inputs near the request periods."""
     out = []
     for v in world["variables"]:
+        end = v.get("end")
+        if end and end.endswith("-01") and chance(rng, 0.5):
+            # the last day the variable exists is the first day of a period: an input for that
+            # very period is an input like any other
+            per = {"month": end[:7], "day": end, "year": end[:4] if end.endswith("-01-01") else None}.get(v["unit"])
+            if per:
+                out.append([v["name"], per, [gen_value(rng, v, world) for _ in range(rng.randint(1, 3))]])
         n = 0
         while chance(rng, p) and n < 3:
             n += 1
